@@ -154,10 +154,11 @@ func exhaustive14(r *Run, tier string) {
 	}
 	// quick: documents up to 3 nodes x paths up to length 3, documents of 4 nodes x paths up to length 2
 	scopes := []scope14{{1, 3, 3}, {4, 4, 2}}
-	probeLen, stride := 2, 4999
+	// model sample: every strideN-th evaluation that returned a node, every stride-th other one
+	probeLen, stride, strideN := 2, 19997, 149
 	if tier == "thorough" {
 		scopes = []scope14{{1, 4, 3}, {5, 5, 2}}
-		stride = 49999
+		stride, strideN = 199999, 1999
 	}
 	memo := map[int][]*gnode{}
 	type job struct {
@@ -207,16 +208,21 @@ func exhaustive14(r *Run, tier string) {
 					b.Count("enum", "unparseable-doc")
 					continue
 				}
-				seq := ji * 4096
+				seqT, seqN := ji*4099, ji*211
 				one := func(c case14) {
-					seq++
 					cls, got := laws14doc(b, c, d, probes)
 					b.evals++
+					sample := false
 					if cls == ClsOk && got {
 						b.nontriv++
+						seqN++
+						sample = seqN%strideN == 0
+					} else {
+						seqT++
+						sample = seqT%stride == 0
 					}
 					b.Count("enum_class/"+c.Op, cls)
-					if seq%stride == 0 {
+					if sample {
 						cm := c
 						cm.Probes = nil
 						clsM, after, found, _ := exec14(cm)
